@@ -24,6 +24,7 @@ CONSTANTS
   MayDrain = FALSE
   MaxT = 4
   TStep = 1
+  FreeOrder = FALSE
 INVARIANTS
   OneFate PortOk LostOnePerDeath NoFactoryPanic KeyExclusive KeyFifo OneAtATime HashInPool RoundRobinCovers QueuerNoIdle ViewExact
   QueueBound HookOrder PoolConverges DrainComplete DrainRefuses
